@@ -87,4 +87,6 @@ def matmul(
     x1, x2 = numpoly.broadcast_arrays(x1, x2)
     out_ = numpoly.multiply(x1, x2, out=out, **kwargs)
     # (booleans are summed as booleans, not counted)
-    return numpoly.sum(out_, axis=-2, dtype=bool if out_.dtype == bool else None)
+    # (a requested type is the one the products are added up in as well)
+    dtype = kwargs.get("dtype", bool if out_.dtype == bool else None)
+    return numpoly.sum(out_, axis=-2, dtype=dtype)
